@@ -464,6 +464,8 @@ func runDirected1(d Directed, v *vt.V) {
 		interleavedChunks(d, v)
 	case "concurrent-listings":
 		concurrentListings(d, v)
+	case "stalled-push":
+		stalledPush(d, v)
 		if v.Failed() {
 			return
 		}
@@ -596,6 +598,52 @@ func runDirected1(d Directed, v *vt.V) {
 			}
 			w0.Cancel()
 		}
+	case "shared-handle-writes":
+		// several goroutines write through ONE handle that was opened at the right offset: in every
+		// sequential order each write is accepted (the handle's offset was right when it first wrote)
+		mem := ocimem.New()
+		const writers = 4
+		x := bytes.Repeat([]byte("x"), max(d.Size, 1))
+		for i := 0; i < d.Iters; i++ {
+			w0, err := mem.PushBlobChunked(ctx, "foo", 0)
+			if err != nil {
+				v.Failf("harness", "%v", err)
+				return
+			}
+			base := i % 3
+			w0.Write(x[:min(base, len(x))])
+			have := w0.Size()
+			w, err := mem.PushBlobChunkedResume(ctx, "foo", w0.ID(), have, 0)
+			if err != nil {
+				v.Failf("harness", "%v", err)
+				return
+			}
+			var wg sync.WaitGroup
+			var accepted, refused, other atomic.Int64
+			start := make(chan struct{})
+			for g := 0; g < writers; g++ {
+				wg.Add(1)
+				go func() {
+					defer wg.Done()
+					<-start
+					switch _, err := w.Write(x); {
+					case err == nil:
+						accepted.Add(1)
+					case errors.Is(err, ociregistry.ErrRangeInvalid):
+						refused.Add(1)
+					default:
+						other.Add(1)
+					}
+				}()
+			}
+			close(start)
+			wg.Wait()
+			if want := have + int64(writers*len(x)); accepted.Load() != writers || w0.Size() != want {
+				v.Failf("shared-handle-write-refused", "%s, iteration %d: %d goroutines wrote %d bytes each through one handle opened at offset %d (the session's size): %d accepted, %d refused as range-invalid, %d other errors; the session holds %d bytes (want all accepted, %d bytes)", d.Family, i, writers, len(x), have, accepted.Load(), refused.Load(), other.Load(), w0.Size(), want)
+				return
+			}
+			w0.Cancel()
+		}
 	case "first-resume-race":
 		// several goroutines open the same, not yet existing, upload id at once (ocimem starts such a
 		// session on demand) and write one byte each: every acknowledged byte belongs to the one session
@@ -723,7 +771,7 @@ func init() {
 	propDirected = &vt.Prop[Directed]{
 		ID:   "C08",
 		Name: "DirectedRaces",
-		Rule: "directed workload families aimed at the registry's two-step operations, each a loop of racing goroutines under -race: tag-flip (a tag moved back and forth between two manifests, the old one deleted each time, while 4 readers GetTag: never missing, never foreign bytes), commit-vs-write / resume-vs-write (one goroutine commits digest(X) while another writes to the same session: a successful commit stores exactly X with the right size, a failed one stores nothing), commit-vs-cancel / commit-vs-wrong-commit / commit-vs-write-commit (every commit that reports success leaves exactly its content retrievable under its digest; nothing is ever stored under the empty digest), stale-write-vs-status / good-write-vs-wrong-offset (a handle opened at a stale offset is refused, one opened at the right offset is accepted, whatever offsets other handles on the same session are opened at meanwhile), first-resume-race (goroutines opening the same fresh upload id at once share one session: no acknowledged write is lost), same-offset-race (of several handles opened at the same offset and writing at once exactly one is accepted), write-during-commit (a Write that succeeds while a Commit is in flight either makes the commit fail or finds the committed blob in place once it has returned), interleaved-chunks (over HTTP: a chunk request is served while another one's body is half delivered - the requests must take effect one after the other), concurrent-listings (over HTTP: 8 clients list tags, repositories and referrers of a registry nobody writes to - every answer is the one the request gets when asked alone); distinct = (family, iterations, size)",
+		Rule: "directed workload families aimed at the registry's two-step operations, each a loop of racing goroutines under -race: tag-flip (a tag moved back and forth between two manifests, the old one deleted each time, while 4 readers GetTag: never missing, never foreign bytes), commit-vs-write / resume-vs-write (one goroutine commits digest(X) while another writes to the same session: a successful commit stores exactly X with the right size, a failed one stores nothing), commit-vs-cancel / commit-vs-wrong-commit / commit-vs-write-commit (every commit that reports success leaves exactly its content retrievable under its digest; nothing is ever stored under the empty digest), stale-write-vs-status / good-write-vs-wrong-offset (a handle opened at a stale offset is refused, one opened at the right offset is accepted, whatever offsets other handles on the same session are opened at meanwhile), first-resume-race (goroutines opening the same fresh upload id at once share one session: no acknowledged write is lost), same-offset-race (of several handles opened at the same offset and writing at once exactly one is accepted), shared-handle-writes (goroutines writing at once through one handle opened at the right offset are all accepted), write-during-commit (a Write that succeeds while a Commit is in flight either makes the commit fail or finds the committed blob in place once it has returned), interleaved-chunks (over HTTP: a chunk request is served while another one's body is half delivered - the requests must take effect one after the other), concurrent-listings (over HTTP: 8 clients list tags, repositories and referrers of a registry nobody writes to - every answer is the one the request gets when asked alone), stalled-push (a PushBlob - direct or as one HTTP request - whose content source stalls: operations on another repository complete meanwhile); distinct = (family, iterations, size)",
 		Run:  runDirected,
 	}
 }
@@ -737,9 +785,9 @@ func TestPropDirected(t *testing.T) {
 	vt.Enumerate(t, propDirected, false, func(yield func(Directed) bool) {
 		k := 0
 		for rep := 0; rep < 2; rep++ {
-			for _, f := range []string{"tag-flip", "commit-vs-write", "commit-vs-cancel", "resume-vs-write", "commit-vs-wrong-commit", "commit-vs-write-commit", "stale-write-vs-status", "good-write-vs-wrong-offset", "first-resume-race", "same-offset-race", "write-during-commit", "interleaved-chunks", "concurrent-listings"} {
+			for _, f := range []string{"tag-flip", "commit-vs-write", "commit-vs-cancel", "resume-vs-write", "commit-vs-wrong-commit", "commit-vs-write-commit", "stale-write-vs-status", "good-write-vs-wrong-offset", "first-resume-race", "same-offset-race", "shared-handle-writes", "write-during-commit", "interleaved-chunks", "concurrent-listings", "stalled-push"} {
 				for _, size := range []int{4, 4096, 1 << 20} {
-					if (f == "tag-flip" || f == "first-resume-race") && size != 4 || (f == "interleaved-chunks" || f == "same-offset-race" || f == "concurrent-listings") && size > 4096 || f == "write-during-commit" && size < 1<<20 {
+					if (f == "tag-flip" || f == "first-resume-race") && size != 4 || (f == "interleaved-chunks" || f == "same-offset-race" || f == "shared-handle-writes" || f == "concurrent-listings") && size > 4096 || f == "write-during-commit" && size < 1<<20 {
 						continue
 					}
 					k++
